@@ -6,4 +6,14 @@ TEXTS = {
   "level": "Machine-checked proof: equal_comm (symmetry of == on all nested well-formed values), neq_not_eq, binop_no_panic (no operator application reaches a Go panic), trichotomy, le_iff_lt_or_eq, lt_flip are Lean theorems quantified over all values and all float arithmetic instances, stated about definitions that goextract regenerates from the Go source on every run; a source edit changes the Lean term and the proof is re-checked.",
   "note": "Trusted: Lean kernel; goextract translator (fail-closed subset); hand model Model/Ops.lean for Array/Map recursion and left-operand dispatch, tied by the `ops` stream (pool^2 x 15 operators exhaustive + random nested values, model vs Object.BinaryOp/Equal and vs the VM); float arithmetic abstract (FloatOps), IEEE comparison defined on bit patterns. SyncMap/RuntimeError/user types outside the modelled value set.",
  },
+ "C12": {
+  "technique": "Lean 4 theorems over a hand model of the compiler's module store (cycle/unknown rejection, one triple per name) and over the VM model's module cache (frame lemmas for all 44 opcodes proved by a small tactic, ghost-counter invariant over arbitrary executions, freshness of Copy()); both models tied to the code by the `modules` correspondence stream (lock-step VM runs, NumModules/error prediction) whose generator carries an independent one-instance-per-module reference semantics as oracle",
+  "level": "Machine-checked proof, partial: store_functional, cycle_rejected, unknown_rejected, copy_fresh, only_storemodule_writes_cache, storemodule_writes_one, prologue_grows_cache, cache_nil_until_stored are proved for all module maps / states / executions; the full statement 'a body is started at most once' (def C12_full) is false of the code and recorded as two open findings.",
+  "note": "Open findings (judged against the property text, both reproduce on the real VM every run): C12:body-rerun-after-throw (a body that throws leaves the cache entry nil; the next import runs it again) and C12:body-reentered-via-global (a body reaches an import of its own module through a global function: re-entered, or StackOverflowError at run time). Trusted: Lean kernel; hand models tied by lock-step stream; ExtImporter outside the model.",
+ },
+ "C14": {
+  "technique": "Lean 4 model of Invoker/_acquire/_release/vmSyncPool over the VM model; theorems pool_fresh, acquire_fields and a decide-checked completeness fact over field lists regenerated from vm.go by goextract (VM struct fields, _acquire and Run-prologue assignments, reads of Run's call graph, _release literal); `invoke` correspondence stream: in-script call vs Go-side Invoker call (pooled/unpooled/reused/nested) as oracle and in lock-step with the model",
+  "level": "Machine-checked proof, partial: acquire_complete (every field Run reads is initialised for a child), release_zeroes, pool_fresh, pool_acquire_eq_new, acquire_fields are proved; initLocals_eq_callbind and the simulation frame_shift (def C14_full) are stated, not proved, and covered by lock-step comparison only.",
+  "note": "Trusted: Lean kernel; goextract vmfields extraction; VM/Invoke.lean tied by the `invoke` stream (250 generated scripts x 2 variants per seed: closures, variadic, recursive, nested, throwing, panicking, importing functions; accepted arities only). Error messages of recovered Go panics contain Go stack text and are never compared.",
+ },
 }
